@@ -378,7 +378,7 @@ def check_c12(tier, t0):
     out = os.path.join(wd, "out.json")
     run_harness(["dispatch", "--cases", cases, "--walks", walks, "--out", out])
     s = json.load(open(out))
-    log("[C12] %d (entry point, announced, requested) cases, %d diagonal walks through 5 entry points, %d mismatches" %
+    log("[C12] %d (entry point, announced, requested) cases, %d diagonal walks through 6 entry points, %d mismatches" %
         (s["evaluated"], s["diagonal_walks"], len(s["violations"])))
     if s["types_without_body"]:
         raise ToolError("no accepted body for types %s (C03 matter) -- dispatch cannot be exercised for them" % s["types_without_body"])
@@ -387,7 +387,7 @@ def check_c12(tier, t0):
         "traces_validated_against_impl": 0,
         "evaluations": s["evaluated"] + 5 * s["diagonal_walks"],
         "distinct_nontrivial": s["evaluated"] - 30,
-        "rule": "all 1000 announced codes x 7 entry points (typed and its error-collecting twin parse_with_errors: x 30 requested types, each with a body of the announced and of the "
+        "rule": "all 1000 announced codes x 8 entry points (typed, its error-collecting twin parse_with_errors and the wrapper's as_mtNNN / into_mtNNN accessors: x 30 requested types, each with a body of the announced and of the "
                 "requested type); plus every unmutated layout walk (<= K optional items / all items, every option) along the diagonal "
                 "through auto, wrapper, parse_mt, validate_mt, publish_mt compared with the typed API; non-trivial = every case "
                 "except the 30 typed diagonal entries",
